@@ -162,11 +162,10 @@ def guard_shape_ok(kind, guard):
 def embedded_check(pid, kind, accepted, guard, viol, cnt):
     p = _mk(f'{kind}()')
     ok_shape = guard_shape_ok(kind, guard)
+    # the shape is evidence only (an equivalent refactoring of the guards must not raise an alarm);
+    # the guards are judged by behaviour below
     cnt['structure_checks'] = cnt.get('structure_checks', 0) + 1
-    if not ok_shape:
-        viol.append(V(f'{pid}|{kind}()|guard-structure',
-                      f"{kind}() is not (?<![guard]) + {kind}(is_extensible=True) + (?![guard]) with guard = {guard!r}: {str(p)[:80]!r}...",
-                      f"from mc.props.lang import guard_shape_ok\nassert guard_shape_ok({kind!r}, {guard!r})"))
+    cnt['guard_shape_is_lookbehind_pattern_lookahead'] = cnt.get('guard_shape_is_lookbehind_pattern_lookahead', 0) + int(ok_shape)
     # (ii) embedded occurrences
     clean = ['', ' ', 'x'] if kind == 'IPv4' else ['', ' ', '-']
     glue = sorted(set(guard[:2] + guard[-1:]))
@@ -354,6 +353,14 @@ def _task17_word(params):
                 bad += 1
                 viol.append(V(f'C17|{expr}|{t}', f"{expr}: in {t!r} expected {want}, got {got}",
                               f"p = {expr}\nassert p.get_matches_and_pos({t!r}) == {want!r}"))
+        for t in ('aé', 'éa', 'aéa', 'é', 'aλ1', '_é'):
+            cnt['word_texts'] += 1
+            for pat, label in ((p, expr), (q, 'extensible ' + expr)):
+                want = gl and lo <= len(t) and (hi is None or len(t) <= hi)
+                if pat.is_exact_match(t) != want and bad < 5:
+                    bad += 1
+                    viol.append(V(f'C17|{expr}|nonascii|{label[:3]}|{t}', f"{label}: is_exact_match({t!r}) is {not want} (is_global={gl})",
+                                  f"p = Word({lo}, {hi}, is_global={gl}{', is_extensible=True' if pat is q else ''})\nassert p.is_exact_match({t!r}) == {want}"))
         for t in texts:
             if ' ' in t or '-' in t or not t:
                 continue
@@ -368,11 +375,19 @@ def _task17_word(params):
 AFFIXES = ['a', 'ab', 'a.b', 'a+b', 'a|b', '1', 'b$a', 'a(b', 'a[b]a', 'a\\b']
 
 
-def _is_w(s):
-    return all(ch.isalnum() or ch == '_' for ch in s)
+def _is_w(s, gl=True):
+    if gl:
+        return all(ch.isalnum() or ch == '_' for ch in s)
+    return all((ch.isascii() and ch.isalnum()) or ch == '_' for ch in s)
 
 
-def affix_model(cls, affixes, t):
+def affix_model(cls, affixes, t, gl=True):
+    def _w(x):
+        return _is_w(x, gl)
+    return _affix_model(cls, affixes, t, _w)
+
+
+def _affix_model(cls, affixes, t, _is_w):
     for a in affixes:
         if cls == 'WordStartsWith':
             if t.startswith(a) and _is_w(t[len(a):]):
@@ -395,8 +410,8 @@ def _task17_affix(lists):
     for cls in ('WordContains', 'WordStartsWith', 'WordEndsWith'):
         for affs in lists:
             arg = repr(affs[0]) if len(affs) == 1 else repr(list(affs))
-            for ext in (False, True):
-                expr = f"{cls}({arg}{', is_extensible=True' if ext else ''})"
+            for ext, gl in ((False, True), (True, True), (False, False), (True, False)):
+                expr = f"{cls}({arg}, is_global={gl}{', is_extensible=True' if ext else ''})"
                 try:
                     p = _mk(expr)
                 except Exception as e:  # noqa: BLE001
@@ -415,9 +430,19 @@ def _task17_affix(lists):
                                 texts.add(t[:i] + 'z' + t[i:])
                 texts.discard('')
                 bad = 0
+                # a non-ASCII word character around the affix: part of the word iff is_global
+                for a in affs:
+                    for t, inner in (('é' + a, cls != 'WordStartsWith'), (a + 'é', cls != 'WordEndsWith'), ('xé' + a + 'éy', cls == 'WordContains')):
+                        cnt['affix_texts'] += 1
+                        want = affix_model(cls, affs, t, gl)
+                        got = p.is_exact_match(t)
+                        if got != want and bad < 3:
+                            bad += 1
+                            viol.append(V(f'C17|{expr}|nonascii|{t}', f"{expr}.is_exact_match({t!r}) is {got}, expected {want}",
+                                          f"p = {expr}\nassert p.is_exact_match({t!r}) == {want}"))
                 for t in sorted(texts):
                     cnt['affix_texts'] += 1
-                    want = affix_model(cls, affs, t)
+                    want = affix_model(cls, affs, t, gl)
                     got = p.is_exact_match(t)
                     if got != want and bad < 3:
                         bad += 1
